@@ -30,6 +30,19 @@ class FS:
         self.faults = faults or {}  # opname -> exception to raise
         self.latency = latency  # callable(handle index) -> number of suspensions per operation on that handle
         self.handles = 0
+        self.open_handles = []  # open _File objects: a rename moves the file they are writing to (inode semantics)
+
+    def renamed(self, src, dst):
+        for h in self.open_handles:
+            if h.path == dst:
+                h.orphan = True  # its file was replaced: further writes go to an unlinked inode
+            elif h.path == src:
+                h.path = dst
+
+    def removed(self, path):
+        for h in self.open_handles:
+            if h.path == path:
+                h.orphan = True
 
     async def pause(self, handle):
         """Each file operation suspends `latency(handle)` times (thread-pool I/O of varying speed)."""
@@ -70,6 +83,7 @@ class _File:
         self.pos = 0
         self.closed = False
         self.handle = 0
+        self.orphan = False
 
     def writable(self):
         return "w" in self.mode or "+" in self.mode or "a" in self.mode
@@ -122,6 +136,8 @@ class _File:
         self._flush()
 
     def _flush(self):
+        if self.buf is not None and self.orphan:
+            self.buf = None
         if self.buf is not None:
             old = self.fs.files.get(self.path, "")
             if isinstance(self.buf, str) and isinstance(old, str):
@@ -133,6 +149,8 @@ class _File:
     def crash_cut(self):
         """The process died with unflushed data: a symbolic prefix of it reached the disk."""
         fs = self.fs
+        if self.orphan:
+            return
         if self.buf is not None and fs.prefix_len is not None and self.writable() and not getattr(fs, "_cut_done", False):
             fs._cut_done = True
             n = fs.prefix_len(len(self.buf))
@@ -153,6 +171,8 @@ class _File:
             raise
         self._flush()
         self.closed = True
+        if self in self.fs.open_handles:
+            self.fs.open_handles.remove(self)
 
 
 class _Ctx:
@@ -180,6 +200,7 @@ class _Ctx:
             raise FileNotFoundError(2, "No such file or directory", self.path)
         self.f = _File(fs, self.path, self.mode)
         self.f.handle = handle
+        fs.open_handles.append(self.f)
         if "a" in self.mode:
             self.f.pos = len(fs.files[self.path])
         return self.f
@@ -215,10 +236,12 @@ class _FakeOs:
         if src not in self.fs.files:
             raise FileNotFoundError(2, "No such file or directory", src)
         self.fs.files[dst] = self.fs.files.pop(src)
+        self.fs.renamed(src, dst)
 
     async def remove(self, path):
         self.fs.tick("remove:" + path)
         self.fs.files.pop(path, None)
+        self.fs.removed(path)
 
 
 class FakeAiofiles:
@@ -261,6 +284,7 @@ class SyncOs:
         if str(p) not in self._fs.files:
             raise FileNotFoundError(2, "No such file or directory", str(p))
         del self._fs.files[str(p)]
+        self._fs.removed(str(p))
 
     unlink = remove
 
